@@ -4,6 +4,8 @@
 use lsp_types::{Position, Range as PosRange};
 type TextRange = std::ops::Range<usize>;
 
+//@extract lsp4spl/src/document.rs :: fn is_line_end
+//@end
 //@extract lsp4spl/src/document.rs :: fn as_position
 //@end
 //@extract lsp4spl/src/document.rs :: fn as_pos_range
@@ -16,14 +18,18 @@ type TextRange = std::ops::Range<usize>;
 //@end
 
 /// Executable reference written from the LSP 3.17 specification text (not from document.rs):
-/// positions are (line, UTF-16 code unit offset in line); line terminators are `\n` and `\r\n`
-/// (texts with a lone `\r` are excluded by the harnesses); a character offset greater than the line length
+/// positions are (line, UTF-16 code unit offset in line); line terminators are `\n`, `\r\n` and `\r`; a character offset greater than the line length
 /// denotes the line end; a line beyond the last one denotes the end of the text.
 pub mod lsp_ref {
     use super::Position;
 
     fn width(b: u8) -> (usize, u32) {
         if b < 0x80 { (1, 1) } else if b < 0xE0 { (2, 1) } else if b < 0xF0 { (3, 1) } else { (4, 2) }
+    }
+
+    fn is_eol(b: &[u8], i: usize) -> bool {
+        // `\n`, or a `\r` that is not the first half of `\r\n` (that pair ends the line at its `\n`)
+        b[i] == b'\n' || (b[i] == b'\r' && !(i + 1 < b.len() && b[i + 1] == b'\n'))
     }
 
     /// (lo, hi): the offsets a position may resolve to. lo != hi only for a position inside a surrogate pair.
@@ -35,14 +41,15 @@ pub mod lsp_ref {
             if i >= b.len() {
                 return (b.len(), b.len());
             }
-            if b[i] == b'\n' {
+            if is_eol(b, i) {
                 line += 1;
             }
             i += 1;
         }
         let mut col = 0u32;
         while i < b.len() && col < p.character {
-            if b[i] == b'\n' || (b[i] == b'\r' && i + 1 < b.len() && b[i + 1] == b'\n') {
+            // the line ends in front of its terminator: `\n`, `\r\n` or `\r`
+            if b[i] == b'\n' || b[i] == b'\r' {
                 return (i, i);
             }
             let (w, u) = width(b[i]);
@@ -62,7 +69,7 @@ pub mod lsp_ref {
         let mut line = 0u32;
         let mut col = 0u32;
         while i < b.len() && i < index {
-            if b[i] == b'\n' {
+            if is_eol(b, i) {
                 line += 1;
                 col = 0;
                 i += 1;
@@ -113,7 +120,6 @@ mod harness {
             let $len: usize = kani::any();
             kani::assume($len <= $n);
             let Ok($s) = std::str::from_utf8(&$b[..$len]) else { return };
-            kani::assume(lsp_ref::no_lone_cr(&$b[..$len]));
         };
     }
 
@@ -147,6 +153,7 @@ mod harness {
                     let want = lsp_ref::position_of(i, s);
                     kani::cover!(want.line == 1 && want.character == 1, "second line");
                     kani::cover!(want.character == 2 && i == 4, "astral char counts two units");
+                    kani::cover!(n >= 2 && b[0] == b'\r' && b[1] != b'\n' && i >= 1 && want.line >= 1, "a lone CR ends a line");
                     assert!(got == want);
                 }
 
